@@ -273,7 +273,9 @@ func (g *dgen) object(n, depth int, loc Loc) *spec.Type {
 		g.requiredOrDefault(f)
 		o.Fields = append(o.Fields, f)
 	}
-	g.extend(o)
+	if !g.extend(o) {
+		g.reference(o)
+	}
 	return o
 }
 
@@ -342,6 +344,95 @@ func (g *dgen) extend(o *spec.Type) bool {
 		}
 	}
 	g.feat("type:extend")
+	return true
+}
+
+// reference makes o refer to an earlier user type (DSL Reference) and declares one or two of that type's
+// primitive attributes by name only; one of them may replace a validation keyword (a wider or narrower bound).
+// The referenced type keeps its own constraints wherever it is used itself.
+func (g *dgen) reference(o *spec.Type) bool {
+	t := g.t
+	if o.Extend != "" || t.Draw("reference", 6) != 0 {
+		return false
+	}
+	var bases []*spec.UserType
+	for _, u := range g.d.Types {
+		if u.IsResult || u.IsError || u.Attr.Type.Kind != spec.Object {
+			continue
+		}
+		for _, f := range u.Attr.Type.Fields {
+			if spec.IsPrimitive(f.Type.Kind) && f.Sec == "" && !f.Inherited && !f.FromRef && o.Field(f.Name) == nil {
+				bases = append(bases, u)
+				break
+			}
+		}
+	}
+	if len(bases) == 0 {
+		return false
+	}
+	b := bases[t.Draw("reference-which", len(bases))]
+	// the referencing object also takes over the referenced type's list of REQUIRED names (expr Inherit): every
+	// required attribute of the base has to be declared here too, or goa refuses the design
+	// ... and ANY attribute of the same name, also one declared here with a type of its own, silently takes the
+	// base's default value and description (inheritRecursive): no name of the base may be in use here already
+	for _, f := range b.Attr.Type.Fields {
+		if o.Field(f.Name) != nil || f.Required && (f.Sec != "" || f.Inherited || f.FromRef) {
+			return false
+		}
+	}
+	n := 0
+	for _, f := range b.Attr.Type.Fields {
+		if !f.Required && (n >= 2 || !spec.IsPrimitive(f.Type.Kind) || f.Sec != "" || f.Inherited || f.FromRef || o.Field(f.Name) != nil) {
+			continue
+		}
+		var cp spec.Attr
+		raw, _ := json.Marshal(f)
+		json.Unmarshal(raw, &cp)
+		cp.FromRef, cp.Required = true, f.Required || t.Draw("ref-required", 3) == 0
+		if v := cp.Val; v != nil && t.Draw("ref-override", 2) == 0 {
+			ov := &spec.Validation{}
+			switch {
+			case v.Max != nil:
+				ov.Max = fp(*v.Max + 1000)
+			case v.Min != nil:
+				ov.Min = fp(*v.Min - 1000)
+				if k := cp.Type.Kind; k == spec.UInt || k == spec.UInt32 || k == spec.UInt64 {
+					ov.Min = fp(0)
+				}
+			case v.MaxLength != nil:
+				ov.MaxLength = ip(*v.MaxLength + 8)
+			case v.ExclMax != nil:
+				ov.ExclMax = fp(*v.ExclMax + 1000)
+			default:
+				ov = nil
+			}
+			if ov != nil {
+				cp.Override = ov
+				merged := *v
+				if ov.Max != nil {
+					merged.Max = ov.Max
+				}
+				if ov.Min != nil {
+					merged.Min = ov.Min
+				}
+				if ov.MaxLength != nil {
+					merged.MaxLength = ov.MaxLength
+				}
+				if ov.ExclMax != nil {
+					merged.ExclMax = ov.ExclMax
+				}
+				cp.Val = &merged
+				g.feat("type:reference-override")
+			}
+		}
+		o.Fields = append(o.Fields, &cp)
+		n++
+	}
+	if n == 0 {
+		return false
+	}
+	o.Reference = b.Name
+	g.feat("type:reference")
 	return true
 }
 
@@ -557,6 +648,9 @@ func (g *dgen) method(svc *spec.Service, idx int) *spec.Method {
 		if g.extend(p) {
 			hasBody = true // the inherited attributes are not mapped anywhere: they travel in the body
 			g.feat("payload:extend")
+		} else if g.reference(p) {
+			hasBody = true // likewise the attributes taken from a referenced type
+			g.feat("payload:reference")
 		}
 		m.Payload = &spec.Attr{Type: p}
 		if hasBody && t.Draw("payload-user-type", 4) == 0 {
